@@ -123,6 +123,17 @@ chk("C01", LOADTXT, TRUST + " Structure enumerated (ndim 1-3, ncpu<=2(3), levels
     "text files parsed by osyris' own eval/np.loadtxt on enumerated texts; byte order and >=2GiB records outside.",
     "symbolic execution of the real loader on symbolic files; SMT (LIA record-locator obligations, LRA value obligations)", "DESIGN.md sections 4, 5 C01")
 
+chk("C13", LOADTXT + " Here with select=...: variable lists per group (every all-but-one subset, single hydro variables, partial component sets: the "
+    "readers' skip branch is then on the path and covered by the locator obligation), groups as a list / switched off with False (files of "
+    "switched-off readers must not be opened). Naming of merged vectors: CrossHair contracts on make_vector_arrays, confirmed over all paths.",
+    TRUST + " Not all 2^k variable subsets; naming contracts over names of <= 2 characters + clash candidates with a recording Vector stand-in.",
+    "symbolic execution of the loader with variable/group selections on symbolic files; CrossHair contracts for component-name merging", "DESIGN.md section 5 C13")
+chk("C14", LOADTXT + " Particle files: the lengths of the five skipped header records and all payloads (double, integer, byte columns in 3 orders) are "
+    "symbolic; concatenation over CPU files, row alignment, units, sortby on a float and on an int key (ordering proved from the path condition). "
+    "Sink files: numpy.loadtxt replaced by its contract with symbolic entries, both unit-line dialects, one/two sinks, empty and missing file.",
+    TRUST + " Particle counts per CPU concrete (0-2); CSV tokenisation is numpy's C code (stubbed by contract).",
+    "symbolic execution of PartReader/SinkReader/Loader on symbolic files; SMT (LIA locator, LRA values)", "DESIGN.md section 5 C14")
+
 for pid in ["C01", "C03", "C04", "C05", "C06", "C07", "C08", "C09", "C10", "C11", "C12", "C13", "C14", "C15", "C16",
             "C17", "C18", "C19", "C20"]:
     NA.setdefault(pid, "check under construction in this round (solver-based harness designed in DESIGN.md section 5, not yet registered)")
